@@ -238,7 +238,21 @@ impl Node {
         let storage = Storage::new(Box::new(MemIO { disk: disk.clone() }));
         Node { blockchain, mempool, wallet_lock, storage, cfg, disk, pk, sk }
     }
+    /// the block reaches the node in its WIRE form, as a peer's block does: nothing the producer computed and kept in
+    /// memory (consensus values, caches) travels with it. `VERIF_INMEM=1` switches back to the in-memory object.
     pub async fn add_block(&mut self, block: Block) -> AddBlockResult {
+        let block = if std::env::var("VERIF_INMEM").is_ok() {
+            block
+        } else {
+            match Block::deserialize_from_net(&block.serialize_for_net(saito_core::core::consensus::block::BlockType::Full)) {
+                Ok(b) => b,
+                Err(_) => block,
+            }
+        };
+        self.blockchain.add_block(block, &mut self.storage, &mut self.mempool, &self.cfg).await
+    }
+    /// the in-memory object itself (how a node receives the blocks it produced)
+    pub async fn add_block_mem(&mut self, block: Block) -> AddBlockResult {
         self.blockchain.add_block(block, &mut self.storage, &mut self.mempool, &self.cfg).await
     }
     /// (latest id, latest hash); None when the ring's own lookup panics (index out of range)
